@@ -419,6 +419,7 @@ fn hover_text(p: &GProg, t: &Ty) -> Option<String> {
             Ty::Array(t, _) | Ty::Vec(t) | Ty::Ref(t) => covered(t),
             Ty::Fn(ps, r) => ps.iter().all(covered) && covered(r),
             Ty::Adt(_, a) => a.iter().all(covered),
+            Ty::Dyn(_) => true,
         }
     }
     if covered(t) {
